@@ -18,6 +18,9 @@ func (t *tr) block(stmts []ast.Stmt, k func() string) string {
 				t.fail("statements after return")
 			}
 			body := t.ret(s)
+			if t.loopRet != nil {
+				body = t.loopRet(body)
+			}
 			sb.WriteString(t.takeLines())
 			sb.WriteString(body)
 			return sb.String()
@@ -45,6 +48,16 @@ func (t *tr) block(stmts []ast.Stmt, k func() string) string {
 				}
 			}
 		case *ast.EmptyStmt:
+		case *ast.ForStmt, *ast.RangeStmt:
+			if !t.g.loops {
+				if t.loopStmt(s) {
+					break
+				}
+				t.fail("unsupported statement (%T); loops, switch, goto, defer and go are not translated", s)
+			}
+			if body, took := t.forStmtGen(s, rest, k); took {
+				return sb.String() + body
+			}
 		default:
 			if t.loopStmt(s) {
 				break
@@ -146,6 +159,7 @@ func (t *tr) ifStmt(s *ast.IfStmt, rest []ast.Stmt, k func() string) string {
 type item struct {
 	c *cell
 	v string
+	o *object // loops mode: a struct whose value is written
 }
 
 func (t *tr) changes(m mark) []item {
@@ -153,7 +167,17 @@ func (t *tr) changes(m mark) []item {
 	seen := map[interface{}]bool{}
 	for _, e := range t.log[m.nlog:] {
 		if e.o != nil && e.o.id <= m.nobj {
-			t.fail("a struct (%s) is stored to in one branch of an if without return", e.o.hint)
+			if !t.g.loops {
+				t.fail("a struct (%s) is stored to in one branch of an if without return", e.o.hint)
+			}
+			if !seen[e.o] {
+				seen[e.o] = true
+				if n := t.heldField(e.o); n != "" {
+					t.fail("the struct %s is written in a branch while %s points to one of its fields", e.o.hint, n)
+				}
+				out = append(out, item{o: e.o})
+			}
+			continue
 		}
 		switch {
 		case e.c != nil && !seen[e.c]:
@@ -177,11 +201,20 @@ func (t *tr) join(cond string, thenL, elseL []ast.Stmt) {
 	if len(t.lines) != 0 {
 		t.fail("internal: pending lines at a join")
 	}
+	t.inJoin++
+	defer func() { t.inJoin-- }()
 	outer := map[string]*binding{}
 	for n, b := range t.env {
 		outer[n] = b
 	}
+	savedAcc := t.acc
+	var tracks []*accTrack
 	collect := func(l []ast.Stmt) []item {
+		if savedAcc != nil {
+			t.acc = &accTrack{first: map[*cell]byte{}, depth: t.depth + 1}
+			tracks = append(tracks, t.acc)
+			defer func() { t.acc = savedAcc }()
+		}
 		m := t.mark()
 		t.depth++
 		var its []item
@@ -197,6 +230,9 @@ func (t *tr) join(cond string, thenL, elseL []ast.Stmt) {
 					case kBool, kInt:
 					default:
 						if nv != ob.v && (nv.c != ob.v.c || nv.o != ob.v.o || nv.e != ob.v.e) {
+							if t.g.loops && t.ptrVarJoinable(ob.v, nv, m) {
+								break // carried as a value: see below
+							}
 							t.fail("variable %s of type %s is re-assigned in one branch of an if without return", it.v, ob.v.t)
 						}
 						continue
@@ -217,6 +253,9 @@ func (t *tr) join(cond string, thenL, elseL []ast.Stmt) {
 			if it.c != nil {
 				key = it.c
 			}
+			if it.o != nil {
+				key = it.o
+			}
 			if !have[key] {
 				have[key] = true
 				items = append(items, it)
@@ -226,13 +265,38 @@ func (t *tr) join(cond string, thenL, elseL []ast.Stmt) {
 	if len(items) == 0 {
 		t.fail("if without effect on the translated state")
 	}
+	if savedAcc != nil {
+		// first accesses of the two branches, seen from the enclosing loop body:
+		// written first on both paths = written first; anything else = read
+		for _, tk := range tracks {
+			for c, a := range tk.first {
+				if !t.cellExistedAt(c, t.mark()) {
+					continue
+				}
+				if a == 'W' && tracks[0].first[c] == 'W' && tracks[1].first[c] == 'W' {
+					t.noteWrite(c)
+				} else {
+					t.noteRead(c)
+				}
+			}
+		}
+		t.acc = nil
+		defer func() { t.acc = savedAcc }()
+	}
 	tuple := func() string {
 		var parts []string
 		for _, it := range items {
-			if it.c != nil {
+			switch {
+			case it.c != nil:
 				parts = append(parts, it.c.cur)
-			} else {
-				parts = append(parts, t.lookup(it.v).e)
+			case it.o != nil:
+				parts = append(parts, t.wholeOf(it.o))
+			default:
+				if v := t.lookup(it.v); v.t.k == kBool || v.t.k == kInt {
+					parts = append(parts, v.e)
+				} else {
+					parts = append(parts, t.valueOf(v))
+				}
 			}
 		}
 		if len(parts) == 1 {
@@ -250,6 +314,8 @@ func (t *tr) join(cond string, thenL, elseL []ast.Stmt) {
 				t.fail("internal: anonymous cell changed in a branch")
 			}
 			names = append(names, t.fresh(h, it.c))
+		} else if it.o != nil {
+			names = append(names, t.fresh(it.o.hint, it.o))
 		} else {
 			names = append(names, t.freshFor(it.v, it.v))
 		}
@@ -267,8 +333,16 @@ func (t *tr) join(cond string, thenL, elseL []ast.Stmt) {
 		if it.c != nil {
 			t.preWrite(it.c)
 			t.setCur(it.c, names[i], 0)
+		} else if it.o != nil {
+			t.checkObjWritable(it.o)
+			t.setWhole(it.o, names[i])
 		} else {
 			old := t.lookup(it.v)
+			if old.t.k != kBool && old.t.k != kInt {
+				li := &litem{v: it.v, vt: old.t}
+				t.bindItem(li, names[i], true)
+				continue
+			}
 			t.setVar(it.v, &val{t: old.t, e: names[i]}, false)
 		}
 	}
@@ -288,4 +362,18 @@ func simplifyLet(s string) string {
 		}
 	}
 	return s
+}
+
+// ptrVarJoinable (loops mode): a pointer variable that a branch makes point
+// to storage created in that branch can be joined as a VALUE; afterwards it
+// points to a cell that must not be written in place (the pointer differs
+// between the paths).
+func (t *tr) ptrVarJoinable(old, nv *val, m mark) bool {
+	switch nv.t.k {
+	case kZ, kFe:
+		return nv.c != nil && nv.c.id > m.ncell
+	case kZList, kList:
+		return nv.c == nil || nv.c.id > m.ncell
+	}
+	return false
 }
